@@ -15,7 +15,12 @@ pub enum Call {
 }
 
 pub struct RecDest {
+    /// the destination's bytes from absolute offset `base` on (a window: destinations positioned beyond 4 GiB are not materialised from 0)
     pub data: Vec<u8>,
+    /// absolute offset of data[0]: 0, or the multiple of 4 GiB at or below the start offset
+    pub base: u64,
+    /// a write or seek-and-write landed below the window (i.e. more than 4 GiB before the start offset)
+    pub outside: bool,
     pub pos: u64,
     pub start: u64,
     pub pre_len: usize,
@@ -37,10 +42,13 @@ pub fn sentinel(i: usize) -> u8 {
 impl RecDest {
     /// `start`: initial stream position; `pre_len` >= start: length of pre-existing content.
     pub fn new(start: u64, pre_len: usize) -> Self {
+        let base = start & !0xffff_ffffu64;
         let pre_len = pre_len.max(start as usize);
-        let data = (0..pre_len).map(sentinel).collect();
+        let data = (base as usize..pre_len).map(sentinel).collect();
         RecDest {
             data,
+            base,
+            outside: false,
             pos: start,
             start,
             pre_len,
@@ -62,19 +70,25 @@ impl RecDest {
     }
     /// The part of the destination from the start offset on.
     pub fn image_part(&self) -> &[u8] {
-        &self.data[self.start as usize..]
+        &self.data[(self.start - self.base) as usize..]
+    }
+    /// position inside the window of an absolute offset (which must not lie below it)
+    pub fn rel(&self, abs: u64) -> usize {
+        (abs - self.base) as usize
     }
     /// true iff every byte before `start` still has its sentinel value
     pub fn prefix_intact(&self) -> bool {
-        self.data[..self.start as usize]
-            .iter()
-            .enumerate()
-            .all(|(i, b)| *b == sentinel(i))
+        !self.outside
+            && self.data[..(self.start - self.base) as usize]
+                .iter()
+                .enumerate()
+                .all(|(i, b)| *b == sentinel(i + self.base as usize))
     }
     /// index (absolute) of the first pre-existing byte at or after `from_abs` that was modified,
     /// or None when all bytes of the pre-existing content from there on are intact
     pub fn first_modified_from(&self, from_abs: usize) -> Option<usize> {
-        (from_abs..self.pre_len.min(self.data.len())).find(|&i| self.data[i] != sentinel(i))
+        let b = self.base as usize;
+        (from_abs.max(b)..self.pre_len.min(self.data.len() + b)).find(|&i| self.data[i - b] != sentinel(i))
     }
     /// highest absolute offset written so far (end of the furthest write), or `start`
     pub fn written_hi(&self) -> u64 {
@@ -88,11 +102,15 @@ impl RecDest {
             .unwrap_or(self.start)
             .max(self.start)
     }
-    /// Rebuild the destination content as it was after the first `n` logged calls.
+    /// Rebuild the destination content (the window, from `base` on) as it was after the first `n` logged calls.
     pub fn content_after(&self, n: usize) -> Vec<u8> {
-        let mut d: Vec<u8> = (0..self.pre_len).map(sentinel).collect();
+        let mut d: Vec<u8> = (self.base as usize..self.pre_len).map(sentinel).collect();
         for c in self.calls.iter().take(n) {
             if let Call::Write { pos, data } = c {
+                if *pos < self.base {
+                    continue;
+                }
+                let pos = &(*pos - self.base);
                 let end = *pos as usize + data.len();
                 if d.len() < end {
                     d.resize(end, 0);
@@ -117,22 +135,27 @@ impl Write for RecDest {
                     self.calls.push(Call::Failed { what: "write (nothing accepted)" });
                     return Ok(0);
                 }
-            } else if self.full && self.pos as usize + buf.len() > self.data.len() {
+            } else if self.full && self.pos.saturating_sub(self.base) as usize + buf.len() > self.data.len() {
                 self.calls.push(Call::Failed { what: "write (no space left)" });
                 return Err(Error::new(ErrorKind::Other, "no space left on device (injected)"));
             }
         }
-        let pos = self.pos as usize;
-        let end = pos + buf.len();
-        if self.data.len() < end {
-            self.data.resize(end, 0);
+        if self.pos < self.base {
+            // far below where the dump was to go: remembered, not materialised
+            self.outside = true;
+        } else {
+            let pos = (self.pos - self.base) as usize;
+            let end = pos + buf.len();
+            if self.data.len() < end {
+                self.data.resize(end, 0);
+            }
+            self.data[pos..end].copy_from_slice(buf);
         }
-        self.data[pos..end].copy_from_slice(buf);
         self.calls.push(Call::Write {
             pos: self.pos,
             data: buf.to_vec(),
         });
-        self.pos = end as u64;
+        self.pos += buf.len() as u64;
         Ok(buf.len())
     }
     fn flush(&mut self) -> Result<()> {
@@ -154,7 +177,7 @@ impl Seek for RecDest {
         let new = match to {
             SeekFrom::Start(p) => p as i128,
             SeekFrom::Current(d) => self.pos as i128 + d as i128,
-            SeekFrom::End(d) => self.data.len() as i128 + d as i128,
+            SeekFrom::End(d) => self.base as i128 + self.data.len() as i128 + d as i128,
         };
         if new < 0 {
             return Err(Error::new(ErrorKind::InvalidInput, "negative seek"));
